@@ -416,6 +416,10 @@ class BaseOdeModel(object):
         else:
             raise InputError("Expecting a list")
 
+        # states added after construction have no declared limits: lower limit 0
+        if hasattr(self, "_state_lims"):
+            self._state_lims += [(0, None)]*(len(self._stateList) - len(self._state_lims))
+
         self._hasNewTransition.trip()
 
     @property
@@ -799,8 +803,13 @@ class BaseOdeModel(object):
             # else:
             #     raise InputError("Input type should either be a string or list")
 
-            self._state_lims=lim_list                           # TODO: maybe assigning limits via a dict is tidier/safer
-            self.__setattr__(attr_list_name, list(attr_list))
+            # One limit per state actually created: a declaration such as 'y1:4' expands to
+            # several states, each of which takes the limits of the entry it came from.
+            self._state_lims=[]
+            for att, lim in zip(attr_list, lim_list):
+                n_before=len(self._stateList)
+                self.__setattr__(attr_list_name, att)
+                self._state_lims[n_before:] = [lim]*(len(self._stateList) - n_before)
 
         else:
             raise InputError("No attribute passed to function")
